@@ -125,7 +125,9 @@ class Session(Thread):
             raise error[0]
         #if ':base:1.0' not in self.server_capabilities:
         #    raise MissingCapabilityError(':base:1.0')
-        if 'urn:ietf:params:netconf:base:1.1' in self._server_capabilities and 'urn:ietf:params:netconf:base:1.1' in self._client_capabilities:
+        # ':base:1.1' matches the base:1.1 URI in either URN form
+        # (urn:ietf:params:netconf:... and urn:ietf:params:xml:ns:netconf:...)
+        if ':base:1.1' in self._server_capabilities and ':base:1.1' in self._client_capabilities:
             self.logger.debug("After 'hello' message selecting netconf:base:1.1 for encoding")
             self._base = NetconfBase.BASE_11
         self.logger.info('initialized: session-id=%s | server_capabilities=%s',
